@@ -101,8 +101,10 @@ let spec_check ?(any_pos = false) (log : dop list) (verdicts : string list) (flu
           fail (Printf.sprintf "crash point %d: reports no flush but a surviving database is not empty" k)
       end else if String.length v > 2 && String.sub v 0 2 = "O:" then begin
         let m = String.sub v 2 (String.length v - 2) in
+        let first_after = List.fold_left (fun acc (p, _, _) ->
+          if p > k then (match acc with None -> Some p | Some q -> Some (min p q)) else acc) None flushes in
         let matches (pos, id, snap) =
-          (any_pos || pos <= k) && m = "00" ^ (if id = "-" then "" else id) &&
+          (pos <= k || (any_pos && first_after = Some pos)) && m = "00" ^ (if id = "-" then "" else id) &&
           List.for_all (fun (n, d) -> match List.assoc_opt n snap with
             | Some s -> s = d
             | None -> d = "") dbs in
@@ -111,6 +113,14 @@ let spec_check ?(any_pos = false) (log : dop list) (verdicts : string list) (flu
                   (String.concat ";" (List.map (fun (n, d) -> n ^ "=" ^ d) dbs)))
       end
     end) verdicts;
+  (* the other direction: a crash right after a completed flush is reported as that flush *)
+  let va = Array.of_list verdicts in
+  List.iter (fun (pos, id, _) ->
+    if !ok && pos < Array.length va && crash log (nat_of_int pos) <> [] then begin
+      let want = "O:00" ^ (if id = "-" then "" else id) in
+      if va.(pos) <> want then
+        fail (Printf.sprintf "crash point %d = right after flush %s returned: verdict %s, expected %s" pos id va.(pos) want)
+    end) flushes;
   !ok, !why
 
 let eval inp obs =
